@@ -193,6 +193,10 @@ func ruleLockset(c *Ctx) {
 				for _, r := range *v.Referrers() {
 					switch x := r.(type) {
 					case *ssa.Phi, *ssa.ChangeType, *ssa.MakeInterface, *ssa.Slice:
+						// a reference merged in only where it was just tested nil is no shared map
+						if ph, isPh := r.(*ssa.Phi); isPh && nilOnEveryEdge(ph, v) {
+							continue
+						}
 						if _, ok := guardedRef[x.(ssa.Value)]; !ok {
 							guardedRef[x.(ssa.Value)] = g
 							changed = true
@@ -649,4 +653,47 @@ func instrOrdinalOf2(ins ssa.Instruction) string {
 		}
 	}
 	return "?"
+}
+
+// nilOnEveryEdge: on every incoming edge of ph that carries v, v was just tested and found nil (the edge is the
+// nil side of a branch on v, or its source block is reached only where v == nil).
+func nilOnEveryEdge(ph *ssa.Phi, v ssa.Value) bool {
+	isNilTest := func(cond ssa.Value) (eq bool, ok bool) {
+		bo, isBo := cond.(*ssa.BinOp)
+		if !isBo || (bo.Op != token.EQL && bo.Op != token.NEQ) {
+			return false, false
+		}
+		k, isK := bo.Y.(*ssa.Const)
+		if !isK || k.Value != nil || bo.X != v {
+			return false, false
+		}
+		return bo.Op == token.EQL, true
+	}
+	found := false
+	for i, e := range ph.Edges {
+		if e != v {
+			continue
+		}
+		found = true
+		pred := ph.Block().Preds[i]
+		okEdge := false
+		if iff, isIf := pred.Instrs[len(pred.Instrs)-1].(*ssa.If); isIf && pred.Succs[0] != pred.Succs[1] {
+			if eq, ok := isNilTest(iff.Cond); ok {
+				nilSucc := pred.Succs[1]
+				if eq {
+					nilSucc = pred.Succs[0]
+				}
+				okEdge = nilSucc == ph.Block()
+			}
+		}
+		for _, dc := range dominatingConds(pred) {
+			if eq, ok := isNilTest(dc.cond); ok && eq == dc.truth {
+				okEdge = true
+			}
+		}
+		if !okEdge {
+			return false
+		}
+	}
+	return found
 }
